@@ -20,6 +20,10 @@ type vfVecOp struct {
 	Thr float32   `json:"thr,omitempty"`
 	IDs []uint32  `json:"ids,omitempty"`
 	NP  int       `json:"nprobes,omitempty"`
+	// C14 only
+	Code  []int `json:"code,omitempty"`
+	List  int   `json:"list,omitempty"`
+	ThrOf int   `json:"thr_of_rank,omitempty"`
 }
 
 type vfC01Case struct {
